@@ -44,7 +44,7 @@ func checkC16(r *core.Run) {
 	r.Rule("R-C16-layout", "the 136-byte index record is written and read with the same offsets, widths and flag bits: flags byte 0 (trusted 1, invalid 2, compressed 4, snappy 8, length 16, index 32), file index [28:32], original length [32:36], height [36:40], position [40:48], stored length [48:52], transaction count [52:56], header [56:136]")
 	r.Rule("R-C16-position", "file positions: loading the index advances the mirrored index position by 136 for every record read, including skipped ones; the append positions advance by exactly the bytes written; a roll-over resets the data position together with the file index; after loading, both files are positioned at the mirrored positions (not at their physical end); while loading, the per-file data position is reset before it is raised by a record of the newer file")
 	r.Rule("R-C16-locks", "the block index and the cache are accessed under the store mutex, the files under the disk mutex; changing a flag byte restores the append position")
-	r.Rule("R-C16-flags", "blocks not yet written are never evicted from the cache; marking invalid does not mark trusted; a stored block is decoded with the codec its flags name; every descendant of a deleted branch is marked invalid")
+	r.Rule("R-C16-flags", "blocks not yet written are never evicted from the cache; marking invalid does not mark trusted; a stored block is decoded with the codec its flags name; every descendant of a deleted branch is marked invalid; a flush writes every queued block (a queue entry that is discarded does not end it)")
 	r.Explain = "Static: encode/decode offset comparison, must-pass-through and dominance rules on the position bookkeeping, lock-set dataflow over the store's methods, guard rules."
 	r.NotCov = "Byte equality of returned blocks, the snappy/gzip codecs, cache replacement order, histories of operations."
 	p := load(r, core.LoadOpts{})
@@ -61,6 +61,7 @@ func checkC16(r *core.Run) {
 	c16Position(r, p, wo, lb)
 	c16Locks(r, p)
 	c16Flags(r, p)
+	blockdbFlushDrains(r, p, "R-C16-flags")
 }
 
 func c16Layouts(r *core.Run, p *core.Program, wo, lb *ssa.Function) {
